@@ -165,11 +165,10 @@ fn op_tokens(quick: bool) -> Vec<Op> {
     }
     v.push(Op::Flush);
     if !quick {
-        // three slices / literal format pieces over the basic chunk set
-        let basic = chunk_tokens(true);
-        for a in &basic {
-            for b in &basic {
-                for c in &basic {
+        // three slices over the full chunk set, literal format pieces
+        for a in &chunks {
+            for b in &chunks {
+                for c in &chunks {
                     v.push(Op::Vectored(vec![a.clone(), b.clone(), c.clone()]));
                 }
             }
@@ -639,6 +638,7 @@ fn open_pty() -> Option<(std::fs::File, std::fs::File)> {
 
 fn adapted_case(global: ColorChoice, stream_kind: &str, input: &str) -> Result<String, String> {
     global.write_global();
+    let term_before = std::env::var_os("TERM");
     if stream_kind == "pty" {
         std::env::set_var("TERM", "xterm-256color");
     }
@@ -660,6 +660,12 @@ fn adapted_case(global: ColorChoice, stream_kind: &str, input: &str) -> Result<S
         k => Err(format!("unknown stream kind {k}")),
     });
     ColorChoice::Auto.write_global();
+    if stream_kind == "pty" {
+        match term_before {
+            Some(t) => std::env::set_var("TERM", t),
+            None => std::env::remove_var("TERM"),
+        }
+    }
     let got = r?;
     // the target stream decides: a terminal with TERM set and global Auto gets colour, non-terminals (cleared environment) do not
     let model_env = vmodel::env::Env { term: Some("xterm-256color".into()), ..Default::default() };
